@@ -103,6 +103,9 @@ func TestVerifC04RegisterDuringChange(t *testing.T) {
 				if s.stored[i][j] {
 					continue
 				}
+				if tw := c04Twin(s.pool, j); tw >= 0 && s.stored[i][tw] {
+					continue
+				}
 				s.rib.AddPath(s.pfxs[i], s.pool[j].Copy())
 				s.stored[i][j] = true
 				cas.Logf("preload %s pool[%d]", s.pfxs[i], j)
